@@ -805,6 +805,14 @@ class Gen:
                 d['default'] = {'form': 'lit', 'value': (1 << W) - 1}
                 d['legacy'] = True
             self.add(d, 'F5', 'accept', ['all-bases', 'W=%d' % W])
+        for W in (32, 64, 128, 24, 100):
+            for where in ('low', 'top'):
+                fields = []
+                for n in range(1, W + 1):
+                    lo = 0 if where == 'low' else W - n
+                    fields.append(F('w%d' % n, {'k': 'u', 'n': n}, [('r', lo, lo + n - 1)] if n > 1 else [('s', lo)], acc='rw'))
+                self.add({'kind': 'bitfield', 'name': self.name('S'), 'base': W, 'fields': fields, 'light': True}, 'F1w', 'accept',
+                         ['every-width', where, 'W=%d' % W])
         for W in (8, 12, 16):
             for lo in range(W):
                 fields = []
